@@ -11,6 +11,7 @@ package main
 
 import (
 	"context"
+	"encoding/hex"
 	"fmt"
 	"strings"
 
@@ -98,6 +99,68 @@ func c15Value(text string) (*yaml.Node, error) {
 		}
 	}
 	return v.Content[0], nil
+}
+
+// c15Opened encrypts the stored definition as a backend does, opens it with the matching decrypter and compares the
+// value at values.<path> with the text that was given to `env set --secret`.
+func c15Opened(def []byte, path resource.PropertyPath, want string) (res string) {
+	defer func() {
+		if r := recover(); r != nil {
+			res = "panic"
+		}
+	}()
+	toy := cyToyCipher{key: 0x5a, pad: 2}
+	enc, err := eval.EncryptSecrets(context.Background(), "def", def, toy)
+	if err != nil {
+		return "skip:encrypt"
+	}
+	decl, diags, err := eval.LoadYAMLBytes("def", enc)
+	if err != nil || diags.HasErrors() || decl == nil {
+		return "skip:load"
+	}
+	ec, _ := esc.NewExecContext(map[string]esc.Value{})
+	out, ediags := eval.EvalEnvironment(context.Background(), "def", decl, toy, c15NoProviders{}, c15EmptyEnvs{}, ec)
+	if out == nil || ediags.HasErrors() {
+		return "skip:eval"
+	}
+	v := esc.NewValue(out.Properties)
+	for _, k := range path {
+		switch key := k.(type) {
+		case string:
+			m, ok := v.Value.(map[string]esc.Value)
+			if !ok {
+				return "skip:path"
+			}
+			v, ok = m[key]
+			if !ok {
+				return "skip:path"
+			}
+		case int:
+			l, ok := v.Value.([]esc.Value)
+			if !ok || key < 0 || key >= len(l) {
+				return "skip:path"
+			}
+			v = l[key]
+		}
+	}
+	sv, ok := v.Value.(string)
+	if !ok {
+		return "differs:notstring"
+	}
+	if !v.Secret {
+		return "differs:notsecret"
+	}
+	if sv != want {
+		return "differs:" + hex.EncodeToString([]byte(sv))
+	}
+	return "same"
+}
+
+// collaborators of c15Opened: every import is an empty environment, there are no providers
+type c15EmptyEnvs struct{}
+
+func (c15EmptyEnvs) LoadEnvironment(ctx context.Context, name string) ([]byte, eval.Decrypter, error) {
+	return []byte("values: {}\n"), cyToyCipher{key: 0x5a, pad: 2}, nil
 }
 
 func c15Guard(f func() error) (status string) {
@@ -283,6 +346,13 @@ func c15(c map[string]any) map[string]any {
 			status = "badmode"
 		}
 		step["status"] = status
+
+		// `env set --secret <text>`: what the stored definition OPENS to after the write-back every backend performs
+		// (eval.EncryptSecrets with the environment's key) must be the given text, flagged secret
+		if mode == "cli" && kind == "set" && secret && status == "ok" && perr == nil && val != nil &&
+			val.Kind == yaml.ScalarNode && val.Tag == "!!str" {
+			step["opened"] = c15Opened(cur, path, val.Value)
+		}
 
 		// what is stored now
 		d2, r2, err := c15Root(cur)
